@@ -16,7 +16,44 @@ ASSUMPTIONS = [
 DROPPED = ['docstrings', '_LOGGER/logging calls', 'with lc.LogContext (transparent)', 'decorators (schema.schema -> '
            'source of input type invariants)']
 
+S = 'treadmill.scheduler:'
+SCHED_CORE = [S + x for x in (
+    'IdentityGroup.acquire', 'IdentityGroup.release', 'IdentityGroup.adjust',
+    'Application.acquire_identity', 'Application.release_identity',
+    'Node.increment_affinity', 'Node.decrement_affinity', 'Bucket.adjust_capacity_up', 'Bucket.adjust_capacity_down',
+    'Server.check_app_lifetime', 'Server.put', 'Server.remove', 'Server.restore', 'Server.renew',
+    'Server.remove_all', 'Server.set_state')]
+SCHED_CELL = [S + x for x in (
+    'PlacementFeasibilityTracker.feasible', 'PlacementFeasibilityTracker.adjust',
+    'SpreadStrategy.suggested_node', 'SpreadStrategy.next_node', 'Bucket.get_affinity_strategy', 'Bucket.put',
+    'Cell._fix_invalid_placements', 'Cell._handle_inactive_servers', 'Cell._handle_blacklisted_apps',
+    'Cell._fix_invalid_identities', 'Cell._find_placements', 'Cell._record_rank_and_util',
+    'Cell.schedule_alloc', 'Cell.schedule')]
+SCHED_ASSUME = [
+    'scheduler.DIMENSION_COUNT == 3 (set by every production entry point)',
+    'time.time() is non-decreasing along one execution',
+    'Cell.members() returns the name->server map of the tree leaves and the tree is closed under children '
+    '(tree_ok); Node.add_node/remove_node are not yet under contract',
+    'Allocation.utilization_queue lists every instance of the allocation tree exactly once and those are the '
+    'cell\'s instances of that partition (C06 clause 1 / InvAlloc): assumed at the call in schedule_alloc',
+    'Application.renew is False in every reachable state (no production writer except the re-arm inside '
+    '_find_placements): renewal branch of _find_placements is therefore unreachable and not exercised',
+    'qidx(L, x) is the least index of x in L (definitional axiom of a witness function)',
+    'instance demand vectors and capacities are non-negative (API schema)',
+]
+
 PROPS = {
+    'C01': {
+        'contract_modules': ['scheduler_core', 'scheduler_cell'],
+        'functions': SCHED_CORE + SCHED_CELL,
+        'replay': 'scheduler.py',
+        'assumptions': SCHED_ASSUME + [
+            'history closure: the cycle invariant is assumed to hold (in its between-cycles form: weak_link) when '
+            'schedule() is entered; event handlers outside Cell.schedule (loader/master, add_app/remove_app, '
+            'server add/remove) are not yet under contract',
+            'unit spellings (1G = 1024M, 100% = 100): the parsers utils.megabytes/cpu_units are not yet under '
+            'contract (string theory); not decided by this check'],
+    },
     'C19': {
         'contract_modules': ['c19_allocation_api'],
         'functions': ['treadmill.api.allocation:_check_limit', 'treadmill.api.allocation:_calc_free',
